@@ -8,16 +8,15 @@
      model (which C02 proves exact), for ALL operands — the counter is well defined.
    - C20_quadratic: for ALL canonical operands the work is at most |a|·|b| (the third criterion,
      universally; proved by induction, no evaluation).
-   - C20_bank: the kernel evaluates the bank products (each once, vm) and the criteria hold:
-     cost(2n) <= 3.25 cost(n), unbalanced (and balanced) cost <= lx*ly.
-     Quick part here: n = 256, 512, 1024; 256x511, 256x512, 512x1023, 512x1024.
-   - The slower part (2048, 4096 incl. cost(4096) < 4096^2/4, 1024x2047, 1024x2048, 256x16384)
-     is `MulCostBankBig.bank_big` (about 12 min of VM; built in the thorough tier).
+   - the bank: the kernel evaluates the bank products (each once, vm) and the criteria hold:
+     cost(2n) <= 3.25 cost(n), unbalanced (and balanced) cost <= lx*ly — `bank_quick`
+     (n = 256, 512, 1024; 256x511, 256x512, 512x1023, 512x1024) and `bank_big` (2048, 4096 incl.
+     cost(4096) < 4096^2/4, 1024x2047, 1024x2048, 256x16384) in coq/slow/, see the end of this file.
    - Sizes 8192, 16384 and n x 64n for n >= 512 are out of the VM's reach; there the check
      compares the model's count with the implementation's counter exactly (driver vs hook)
      and decides the criteria on the implementation's counts (tools/gen/c20.py). *)
 From BigNum Require Import Base BaseLemmas X86 AddSub AddSubProofs Mul MulCost
-  MulProofs MulProofs5 MulCostProofs MulCostQuad MulCostBank Extracted InstMul InstMulCost.
+  MulProofs MulProofs5 MulCostProofs MulCostQuad Extracted InstMul InstMulCost.
 Open Scope Z_scope.
 
 Theorem C20_erasure : forall a b, umul mul a b = omap fst (umul_c mul a b).
@@ -37,17 +36,22 @@ Theorem C20_quadratic : forall a b, canon a -> canon b ->
 Proof. intros; apply cost_quadratic; auto using cost_params_ok. Qed.
 Print Assumptions C20_quadratic.
 
-Theorem C20_bank :
-  exists c256 c512 c1024 u1 u2 u3 u4,
-    bank_cost mul 256 256 = Ret c256 /\ bank_cost mul 512 512 = Ret c512 /\
-    bank_cost mul 1024 1024 = Ret c1024 /\
-    bank_cost mul 256 511 = Ret u1 /\ bank_cost mul 256 512 = Ret u2 /\
-    bank_cost mul 512 1023 = Ret u3 /\ bank_cost mul 512 1024 = Ret u4 /\
-    4 * c512 <= 13 * c256 /\ 4 * c1024 <= 13 * c512 /\
-    c256 <= 256 * 256 /\ c512 <= 512 * 512 /\ c1024 <= 1024 * 1024 /\
-    u1 <= 256 * 511 /\ u2 <= 256 * 512 /\ u3 <= 512 * 1023 /\ u4 <= 512 * 1024.
-Proof. exact bank_quick. Qed.
-Print Assumptions C20_bank.
+(* The bank (finite, decided by kernel evaluation) is NOT in this file, because the thorough
+   tier re-checks this file with coqchk, which cannot redo the VM evaluation.  It is
+   `bank_quick` in coq/slow/MulCostBank.v, compiled and assumption-checked by every `./check C20`:
+
+   bank_quick :
+     exists c256 c512 c1024 u1 u2 u3 u4,
+       bank_cost mul 256 256 = Ret c256 /\ bank_cost mul 512 512 = Ret c512 /\
+       bank_cost mul 1024 1024 = Ret c1024 /\
+       bank_cost mul 256 511 = Ret u1 /\ bank_cost mul 256 512 = Ret u2 /\
+       bank_cost mul 512 1023 = Ret u3 /\ bank_cost mul 512 1024 = Ret u4 /\
+       4 * c512 <= 13 * c256 /\ 4 * c1024 <= 13 * c512 /\
+       c256 <= 256 * 256 /\ c512 <= 512 * 512 /\ c1024 <= 1024 * 1024 /\
+       u1 <= 256 * 511 /\ u2 <= 256 * 512 /\ u3 <= 512 * 1023 /\ u4 <= 512 * 1024.
+
+   and `bank_big` in coq/slow/MulCostBankBig.v (thorough tier): 1024 -> 2048 -> 4096 doubling,
+   4 * c4096 < 4096 * 4096, 1024 x 2047, 1024 x 2048, 256 x 16384. *)
 
 (* Non-vacuity: the bank operands are canonical, dense, and the Karatsuba regime is counted
    (40 x 40 digits: three 20 x 20 long multiplications = 1200 digit products < 1600). *)
